@@ -135,7 +135,12 @@ class _Special(_Proxy):
     def loggamma(self, x, **kw):
         if symnp.all_concrete(x):
             return symnp.delegate(rscipy.special.loggamma, x, **kw)
-        return _ew(lambda e: core.xlgamma(e), x)
+        def one(e):
+            if isinstance(e, core.SFP) or (core.MODE['float'] == 'fp' and not isinstance(e, XR)):
+                f = z3.Function('fp_lgamma', core.F64, core.F64)
+                return core.SFP(f(core.to_fp(e).t), core.DT64)
+            return core.xlgamma(e)
+        return _ew(one, x)
 
     gammaln = loggamma
 
